@@ -5,6 +5,7 @@ Deciding theorems (coq/props/C05.v over coq/theories/{RachfordRiceC05,BubbleDewC
   rr_bracket / rr_bracket_tight                          returned vapor fraction stays in the bracket within [0,1] (all iterations, all roundings)
   rr_exists_guard(_pos)                                  error branch <=> sum zK <= 1 or sum z/K <= 1
   newton_res_bound_T/_p, flash_res_bound, adjust_x2_bound   the stopping tests bound the fugacity / pressure mismatch
+  hetero_res_bound_T/_p, hetero_p_common_temperature     heteroazeotrope: accepted (= returned) phases have equal fugacities/pressures within tol; one temperature
   nontrivial_distinct                                    phases passing is_trivial_solution = false differ
   spec_phase_invariant(_unit)                            the specified phase keeps the specified composition in every reachable iterate
 Tie (route H, every run): the hooked private rachford_rice / update_states / adjust_x2 and the public
@@ -229,7 +230,8 @@ def run(ctx):
         V.violation(ctx, "%s of %s/%s at T=%.6f K, x=%.6f: %s" % (kind, f0["key"]["pair"][0], f0["key"]["pair"][1], f0["key"]["T"], f0["key"]["x"], f0["what"]),
                     {"broken": "public-API recomputation of the equilibrium conditions at returned results / success inside the stated window",
                      "kind": kind, "failing_inputs": fl[:10], "count": len(fl),
-                     "point": "%s|%s|%r|%r|%r|%r" % (f0["key"]["pair"][0], f0["key"]["pair"][1], f0["key"]["T"], f0["key"]["x"], f0["s"], f0["ntot"]),
+                     **({"hetero_point": f0["hetero_point"]} if "hetero_point" in f0 else
+                        {"point": "%s|%s|%r|%r|%r|%r" % (f0["key"]["pair"][0], f0["key"]["pair"][1], f0["key"]["T"], f0["key"]["x"], f0["s"], f0["ntot"])}),
                      "tolerances": sup["tolerances"]}, found_input=True)
     any_support_failure = bool(new_fail)
 
@@ -322,6 +324,7 @@ def run(ctx):
         "tolerances": {"beta": BETA_TOL, "split_rel_feed": SPLIT_TOL, "balance_rel_feed": BAL_TOL, "spec_composition": SPEC_TOL,
                        "residual_goals_rel": 1e-9, "support": sup["tolerances"]},
         "support_search": {k: v for k, v in sup.items() if k not in ("failures", "samples", "known_points")},
+        "heteroazeotrope_search": impl.get("hetero", {}),
         "support_search_level": "exploration (partial clause: existence in the stated window; not counted among obligations)",
         "known_points_rerun": known_status,
         "samples": sup["samples"][:4] + [{"rachford_rice_case": {k: impl["rr"][i][k] for k in ("z", "k", "b0", "class", "impl")}} for i in range(min(3, len(impl["rr"])))],
@@ -330,7 +333,7 @@ def run(ctx):
     }
     V.write_evidence(ctx, "proof", cov, [
         "the Coq models are hand-written (route H); they are tied to /repo by the differential runs above on the sampled inputs",
-        "existence of bubble/dew points and flashes in the stated window, 'bubble pressure >= dew pressure', and the heteroazeotrope / phase-diagram drivers are NOT decided by proof (support search only; partial)",
+        "existence of bubble/dew points and flashes in the stated window and 'bubble pressure >= dew pressure' are NOT decided by proof (support search only; partial); heteroazeotropes: post-condition theorems + search on water_np/hydrocarbon systems, no existence clause",
         "the bubble/dew solver returns the iterate one Newton step AFTER the one whose residual was tested; the post-condition theorem covers the tested iterate, the returned one is covered by the support search tolerance",
         "Rachford-Rice model domain: z_i >= 0, K_i >= 0 finite (K = exp(..) in the callers); IEEE infinities/NaN modelled only for the existence guard and as RRUndef",
     ])
@@ -339,6 +342,15 @@ def run(ctx):
 def replay(rp):
     """re-run the failing input of a replay on the real implementation"""
     print(json.dumps({k: rp[k] for k in rp if k not in ("failing_inputs", "mismatches", "files", "cases")}, indent=1)[:3000])
+    hp = rp.get("hetero_point")
+    if hp:
+        exe = os.path.join(V.TARGET, "release", "c05")
+        out_dir = os.path.join(V.GEN, "C05_replay")
+        os.makedirs(out_dir, exist_ok=True)
+        rc, out, _ = V.sh([exe, "--out", out_dir, "--hetero-point", hp], cwd=V.VERIF)
+        r = json.load(open(os.path.join(out_dir, "impl.json")))
+        print(json.dumps(r, indent=1)[:6000])
+        return 1 if r["failures"] else 0
     pt = rp.get("point")
     if pt:
         exe = os.path.join(V.TARGET, "release", "c05")
